@@ -327,6 +327,7 @@ pub struct BatchResult {
     pub violations: Vec<RunRecord>,
     pub samples: Vec<serde_json::Value>,
     pub total_ops: u64,
+    pub known_examples: Vec<(u64, String, Vec<String>, Failure)>,
 }
 
 pub fn batch(property: &str, templates: &[Template], base_seed: u64, runs: u64, threads: usize, open: &BTreeSet<String>, deadline: Option<std::time::Instant>) -> BatchResult {
@@ -360,6 +361,9 @@ pub fn batch(property: &str, templates: &[Template], base_seed: u64, runs: u64, 
                         Verdict3::Pass => {}
                         Verdict3::Known(fs) => {
                             e.1 += 1;
+                            if local.known_examples.len() < 40 {
+                                local.known_examples.push((r.idx, r.scenario.clone(), fs.clone(), r.out.primary().unwrap().clone()));
+                            }
                             for f in fs {
                                 *local.known.entry(f.clone()).or_insert(0) += 1;
                             }
@@ -392,6 +396,7 @@ pub fn batch(property: &str, templates: &[Template], base_seed: u64, runs: u64, 
                     *g.known.entry(k).or_insert(0) += v;
                 }
                 g.violations.extend(local.violations);
+                g.known_examples.extend(local.known_examples);
                 g.samples.extend(local.samples);
             });
         }
